@@ -778,7 +778,7 @@ static void unrank2(uint64_t idx, int n, int& i, int& j) {
 }
 
 // ================================================================== (4) Simplify on the lattice
-static const double SIMP_TOL[4] = {0, 0.1, 0.6, 1.1};
+static const double SIMP_TOL[6] = {0, 0.1, 0.6, 1.1, 1.6, 2.5};  // the last two are well above 1, where tol and tol^2 order the other way round
 // A case is the set of the 256 vertex sequences of length n that share their first n-2 vertices:
 // idx over 16^1 + 16^2 + 16^3 (+ 16^4) prefixes for n = 3, 4, 5 (, 6).
 static IRing decodePrefix(uint64_t idx, int maxN) {
@@ -1036,7 +1036,7 @@ int main(int argc, char** argv) {
                   if (removed > 0 && !out.empty()) c.nontrivial(hash_str(key));
                   if (out.empty()) c.count("emptied");
                 }
-                if (tail == 77 && idx % 4001 == 12) c.sample("simplify:" + rs + " x tol {0,0.1,0.6,1.1}");
+                if (tail == 77 && idx % 4001 == 12) c.sample("simplify:" + rs + " x tol {0,0.1,0.6,1.1,1.6,2.5}");
               }
             },
             {"transitions", "sequences", "rings", "vertices_removed", "inputs_with_collinear_vertex", "emptied"}, 23);
